@@ -22,7 +22,7 @@ ASSUMPTIONS = [
     "float profile: only 'raised => unchanged', 'succeeded => bound', and the round trip for degree <= 3",
 ]
 
-TOLS = ["default", "default", "none", F(1, 10 ** 12), F(1, 10 ** 6), F(1, 1000), F(1, 10)]
+TOLS = ["default", "default", "none", F(1, 10 ** 12), F(1, 10 ** 6), F(1, 1000), F(1, 10), F(0)]
 
 
 @st.composite
@@ -137,6 +137,27 @@ def generic_cases(draw, nums=("frac",)):
     return {"curve": c, "nodes": nodes, "kind": kind, "tolerance": draw(st.sampled_from(TOLS))}
 
 
+@st.composite
+def special_cases(draw):
+    """Rational curves on U_low + nodes whose weights alone (or numerator alone) live on U_low."""
+    Ulow, p = draw(gen.knotvectors(0, 3, 2))
+    bk = gen.breaks_of(Ulow)
+    pool = list(bk[1:-1])
+    for lo, hi in zip(bk[:-1], bk[1:]):
+        pool += [lo + (hi - lo) * t for t in (F(1, 2), F(1, 3))]
+    nodes = []
+    for _ in range(draw(st.integers(1, 2))):
+        z = draw(st.sampled_from(pool))
+        if sum(1 for u in Ulow if u == z) + nodes.count(z) < p + 1:
+            nodes.append(z)
+    if not nodes:
+        nodes = [(bk[0] + bk[1]) / 2]
+    Uhigh = sorted(Ulow + nodes)
+    c, kind = draw(gen.special_rational(Ulow, p, Uhigh, p))
+    return {"curve": c, "nodes": nodes, "kind": "interior", "special": kind,
+            "tolerance": draw(st.sampled_from(["default", "default", "none", F(1, 10 ** 6), F(0)]))}
+
+
 def sq_integral(ref, after):
     worst = F(0)
     bku = oracle.union_breaks(ref.U, after.U)
@@ -197,6 +218,9 @@ def check_generic(case, out):
         removable = oracle.represent_rational(ref, newU, p) is not None
     out.cls("removable" if removable else "not-removable")
     klass = kind + (";removable" if removable else ";not-removable") + (";p=0" if p == 0 else "")
+    if case.get("special"):
+        out.cls("special=" + case["special"])
+        klass += ";" + case["special"]
     out.nontrivial = multi or len(nodes) >= 2 or exc is not None
     if exc is not None:
         if lib.snapshot(curve) != snap:
@@ -257,4 +281,6 @@ FACETS = [
           rule="removable => exact; otherwise refused+unchanged or within the bound; tolerance=None interpolates"),
     Facet("generic-float", lambda tier: generic_cases(("float",)), check_generic, quick=150, thorough=2500,
           rule="float data: safe direction only"),
+    Facet("rational-special", lambda tier: special_cases(), check_generic, quick=200, thorough=3000,
+          rule="rational curves whose weight function alone / numerator alone / constant weights allow the removal"),
 ]
